@@ -40,10 +40,8 @@ func (cl *cluster) instAbs(i primitives.InstanceId) int {
 func (cl *cluster) hashName(h primitives.BlockHash) string {
 	cl.bodiesMu.Lock()
 	defer cl.bodiesMu.Unlock()
-	for body := range cl.bodies {
-		if string(hashOfBody(body)) == string(h) {
-			return body
-		}
+	if body, ok := cl.byHash[string(h)]; ok {
+		return body
 	}
 	if len(h) == 0 {
 		return "empty"
